@@ -1,5 +1,6 @@
 import BpModel.All
 import BpProofs.RtFlat
+import BpProofs.RtNested
 import BpProofs.Props.C06
 /-
   C01 — binary round trip: parse(bytes(m)) reproduces m for every message value.
@@ -21,10 +22,19 @@ import BpProofs.Props.C06
       decoder-state invariant `GI`;
     * the assembly lemma `roundtrip_of_steps` is generic: ANY field kind for which "decoding
       the bytes of the slot restores the slot" (`SlotStep`) is shown joins the theorem.
-  MISSING (named, not proved): `SlotStep` for message-typed slots — nested / recursive
-    messages, maps, Timestamp / Duration, wrappers (their payloads are themselves flat
-    messages, so the missing step is the induction over nesting depth). Those are covered
-    by the differential correspondence and the oracle of this check.
+    * nested and recursive messages (`roundtrip_nested_partial`): the full statement for ALL
+      schemas and ALL well-typed values `MsgOk` whose fields are flat (as above) or
+      message-typed — singular, proto3-optional, oneof member or repeated sub-messages of any
+      class of the schema, to any depth, including recursive classes — by induction on the
+      nesting fuel of the decoder (= the length of the input; the payload of a nested
+      record is strictly shorter than the record). The decoded value is related to the
+      original by `ValEqv`: same class, oneof selection and unknown fields at every level,
+      `serialized_on_wire` set, and slot-wise an equivalent value or, where the slot emitted
+      no byte, the unset default.
+  MISSING (named, not proved): `SlotStep` for map fields, Timestamp / Duration and wrapper
+    fields (their payloads are flat two-field / one-field messages decoded through the same
+    nested loader). Those are covered by the differential correspondence and the oracle of
+    this check.
 -/
 namespace Bp.C01
 open Bp Gen
@@ -168,6 +178,30 @@ theorem roundtrip_flat_partial (S : Schema) (c : Nat) (d : MsgD) (hd : S[c]? = s
   | dur us => simp [flatSlotOk, scalarOk] at hok
   | dict ks vs => simp [flatSlotOk, scalarOk] at hok
   | msg c' sl' ow' unk' cur' => simp [flatSlotOk, scalarOk] at hok
+
+/-- **message level, nested and recursive messages** — `MsgOk` (BpProofs/NestedDefs.lean)
+    is the well-typedness of a reachable message value: at every nesting level distinct
+    in-range field numbers, the oneof invariant of C07, every slot well-typed for its field
+    (flat as in `roundtrip_flat_partial`, or unset / None / a well-typed message / a list
+    of well-typed messages for a message-typed field), unknown fields that are raw records
+    the class does not know. -/
+theorem roundtrip_nested_partial (S : Schema) (c : Nat) (d : MsgD) (hd : S[c]? = some d)
+    (sl : List Val) (ow : Bool) (unk : Bytes) (cur : List (Option Nat))
+    (hm : MsgOk S (.msg c sl ow unk cur))
+    (bs : Bytes) (hdump : dumpVal S (.msg c sl ow unk cur) = .ok bs) (hbl : bs.length < 2 ^ 64) :
+    ∃ sl', parse S c bs = .ok (.msg c sl' true unk cur)
+      ∧ ValEqv S (.msg c sl ow unk cur) (.msg c sl' true unk cur)
+      ∧ dumpVal S (.msg c sl' true unk cur) = .ok bs := by
+  obtain ⟨sl', h1, h2, h3⟩ := nested_fuel S (bs.length + 1) c d sl ow unk cur bs hm hd hdump hbl (by omega)
+  refine ⟨sl', ?_, h2, h3⟩
+  have hfo : fieldsOf S c = d.fields := by simp [fieldsOf, hd]
+  have hgo : groupsOf S c = d.nGroups := by simp [groupsOf, hd]
+  unfold parse fresh parseInto
+  simp only [hd, hfo, hgo]
+  have e : ({ slots := d.fields.map fun f => if f.optional then Val.none else Val.ph, onWire := false,
+              unknown := [], cur := List.replicate d.nGroups Option.none } : MState) = freshState d := rfl
+  rw [e, h1]
+  rfl
 
 /-! non-vacuity: a class with an int32, an optional string, a two-member oneof and a packed
     repeated sint64; the value below meets every hypothesis (evaluated by `decide`) -/
